@@ -57,7 +57,7 @@ pub fn guard(func: u64, saved: Vec<u8>, size: usize, jit: u64, jit_size: usize) 
 
 #[allow(dead_code, unused_imports, clippy::all)]
 pub mod a64_linux {
-    pub mod common { include!("sim_common.rs"); }
+    pub mod common { include!(concat!(env!("CARGO_MANIFEST_DIR"), "/src/sim_common.rs")); }
     pub mod utils { include!(concat!(env!("OUT_DIR"), "/a64_linux/utils.rs")); }
     pub mod arm64_codegenerator { include!(concat!(env!("OUT_DIR"), "/a64_linux/arm64_codegenerator.rs")); }
     pub mod patch_trait { include!(concat!(env!("OUT_DIR"), "/a64_linux/patch_trait.rs")); }
@@ -65,7 +65,7 @@ pub mod a64_linux {
 }
 #[allow(dead_code, unused_imports, clippy::all)]
 pub mod a64_macos {
-    pub mod common { include!("sim_common.rs"); }
+    pub mod common { include!(concat!(env!("CARGO_MANIFEST_DIR"), "/src/sim_common.rs")); }
     pub mod utils { include!(concat!(env!("OUT_DIR"), "/a64_macos/utils.rs")); }
     pub mod arm64_codegenerator { include!(concat!(env!("OUT_DIR"), "/a64_macos/arm64_codegenerator.rs")); }
     pub mod patch_trait { include!(concat!(env!("OUT_DIR"), "/a64_macos/patch_trait.rs")); }
@@ -73,13 +73,13 @@ pub mod a64_macos {
 }
 #[allow(dead_code, unused_imports, clippy::all)]
 pub mod arm {
-    pub mod common { include!("sim_common.rs"); }
+    pub mod common { include!(concat!(env!("CARGO_MANIFEST_DIR"), "/src/sim_common.rs")); }
     pub mod patch_trait { include!(concat!(env!("OUT_DIR"), "/arm/patch_trait.rs")); }
     pub mod patch_arm { include!(concat!(env!("OUT_DIR"), "/arm/patch_arm.rs")); }
 }
 #[allow(dead_code, unused_imports, clippy::all)]
 pub mod x64sim {
-    pub mod common { include!("sim_common.rs"); }
+    pub mod common { include!(concat!(env!("CARGO_MANIFEST_DIR"), "/src/sim_common.rs")); }
     pub mod patch_trait { include!(concat!(env!("OUT_DIR"), "/x64sim/patch_trait.rs")); }
     pub mod patch_amd64 { include!(concat!(env!("OUT_DIR"), "/x64sim/patch_amd64.rs")); }
 }
